@@ -289,12 +289,17 @@ func (n *Nodis) Serve(addr string) error {
 			// nobody else is served between the check of the watched keys and the last queued
 			// command, and a write that finished before has already marked its watchers
 			n.store.execMu.Lock()
+			verifTrace("gate-in", conn, "x", nil, true)
 			defer n.store.execMu.Unlock()
+			defer verifTrace("gate-out", conn, "x", nil, true)
 		case "BLPOP", "BRPOP":
 			// may wait for a long time: must not hold up transactions
+			verifTrace("gate-serve", conn, "", nil, true)
 		default:
 			n.store.execMu.RLock()
+			verifTrace("gate-in", conn, "s", nil, false)
 			defer n.store.execMu.RUnlock()
+			defer verifTrace("gate-out", conn, "s", nil, false)
 		}
 		c(n, conn, cmd)
 	})
